@@ -464,6 +464,13 @@ def arr_binop(ex, st, op, l, r, node):
             out.scaled_from, out.factor = l, to_real(c)
             return out
         used('Q / x for a NumPy scalar x -> elementwise quotient, values not interpreted (a zero divisor gives inf / nan and a warning, not an exception)')
+        # the candidate scores are (Q / x)**2 summed per candidate: a normaliser x = np.max(np.abs(Q)) vanishes only together with Q, but the
+        # maximum / minimum of the SIGNED entries vanishes for every non-positive (non-negative) Q with a zero entry, and all scores become
+        # inf / nan (C15: the kept candidate is then not the optimum, also for rank 1 and under a full beam).  Other divisors: no obligation.
+        for _a, _r in st.ghost.get('signedmax', []):
+            if z3.is_expr(c) and _r.eq(c):
+                ex.oblige(st, 'safety', 'score-normaliser-vanishes-only-with-the-candidate-matrix (np.max / np.min of signed entries is 0 for a '
+                          'one-signed matrix with a zero entry)', z3.Or(to_real(c) != 0, ex.fresh('Q_is_zero', z3.BoolSort())), node)
         return VArr(l.shape, None, None)
     return _orig_binop(ex, st, op, l, r, node)
 
